@@ -17,7 +17,7 @@ def replayable(scn, desc):
     return {"desc": desc, "root": scn.root, "files": scn.files, "layout": scn.layout, "keys": scn.keys,
             "now": scn.now.isoformat(), "tz": scn.tz,
             "product_files": {k: v.decode("utf8", "replace") for k, v in scn.product_files.items()},
-            "params": scn.params, "inspect_timeout": scn.meta.get("inspect_timeout", 10),
+            "params": scn.params, "inspect_timeout": scn.meta.get("inspect_timeout", 60),
             "persist_links": bool(scn.meta.get("persist_links", False)),
             "model_request": scn.model_request()}
 
@@ -31,7 +31,7 @@ def rebuild(case):
     scn.now = datetime.datetime.fromisoformat(case["now"])
     scn.tz = case.get("tz")
     scn.params = case.get("params")
-    scn.meta["inspect_timeout"] = case.get("inspect_timeout", 10)
+    scn.meta["inspect_timeout"] = case.get("inspect_timeout", 60)
     scn.meta["persist_links"] = bool(case.get("persist_links", False))
     scn.product_files = {k: v.encode("utf8") for k, v in case["product_files"].items()}
     return scn
